@@ -120,7 +120,7 @@ CLAIMS["C04"] = proof(
     "receiving thread's view; its only premises about the code are the Orderings read from the source (loads Acquire, store of Initialized Release: once_ord_premises; coq/Sched/OnceSched.v). C04_payload_accounting / C04_all_dropped_once (coq/Proofs/OnceDrops.v): for every history, payloads dropped so far + payloads "
     "owned now (the cell's value, closure results in flight, set arguments held by futures) = payloads made so far, hence every stored value and every "
     "set argument is dropped exactly once when everything is gone; the drop counter of the model is compared with the implementation's by the correspondence. "
-    "Blocking forms: harness op initb and loom scenario once_blocking_race; set's Err(value) hand-back is compared by the correspondence, not a theorem. " + CORR, NOTE)
+    "C04_set_hand_back (coq/Proofs/OnceSet.v): in every reachable state a poll of a set(v) future returns Ok(&v) only in the step in which it itself initialised the cell with v, Err(v) — its own argument — only when the cell is initialised and the step touched neither the stored value nor the initialisation count, and never anything else; the harness monitors the same clause on the implementation. Blocking forms: harness op initb and loom scenario once_blocking_race. " + CORR, NOTE)
 CLAIMS["C08"] = proof(
     "History half proved for every history (alphabet as C04): C08_waiters_finish — Initialized and every woken task re-polled => no wait / get_or_init / get_or_try_init / set is pending (both events were notified with notify_additional(MAX), "
     "each waiter woken through its latest waker completes at its next poll). C08_hand_over — the cell is Initializing only while some future is running its closure (after Err, panic or cancellation it is Uninitialized again, never stuck); "
